@@ -91,6 +91,20 @@ def oracle_history(rng, nsteps):
     from .c01 import dense_mps, dense_mpo
     pool = [rnd_like(rng, o, rng.random() < 0.5) for o in history.init_pool(rng)]
     log = []
+    if rng.random() < 0.25:
+        # construction with a numeric fill: the constructor itself must enforce the additive rule
+        for cls in (ptn.MPS, ptn.MPO):
+            o0 = pool[0] if cls is ptn.MPS else pool[-1]
+            fill = [1, 2.5, -1, 1 + 2j][int(rng.integers(0, 4))]
+            qD = [np.array(q) for q in o0.qD]
+            try:
+                o = cls(o0.qd.copy(), qD, fill=fill)
+            except Exception as ex:
+                return f'{cls.__name__}(qd, qD, fill={fill}) raises {type(ex).__name__}: {ex}', log
+            log.append({'h': 'construct', 'cls': cls.__name__, 'qd': o0.qd.tolist(), 'qD': [q.tolist() for q in qD], 'fill': str(fill)})
+            if not history.wf(o):
+                return f'{cls.__name__}(qd={o0.qd.tolist()}, qD={[q.tolist() for q in qD]}, fill={fill}) has non-zero entries violating the quantum-number rule', log
+            pool.append(o)
     if rng.random() < 0.3:
         # pool without quantum numbers, seeded with states built by MPS.from_vector (truncating: tol > 0, product states, exact zeros)
         L = pool[0].nsites; d = len(pool[0].qd)
